@@ -20,6 +20,49 @@ impl Prop for C26 {
     }
 
     fn gen(&self, rng: &mut Rng, n: usize, tier: Tier, out: &mut Vec<String>) {
+        // (1) deterministic boundary part: every comparison of the three computations below, at and
+        // above its threshold (1 µs apart), every arm of the hint rule
+        for timeout in [1i64, 100, 5000] {
+            for hint in [0i64, 1, timeout - 1, timeout, timeout + 1, 4_000_000_000] {
+                if hint < 0 {
+                    continue;
+                }
+                let eff = if hint > 0 && hint < timeout { hint } else { timeout } * 1000;
+                for ts in [0i64, -7, 1_000_000] {
+                    out.push(format!("reset {} 1000 1000", timeout));
+                    out.push("pub 9 0 0 0".to_string()); // answered at once by the Late subscription
+                    out.push(format!("pub 1 {} {} 0", ts, hint));
+                    for d in [-1i64, 0, 1] {
+                        out.push(format!("expire {}", ts + eff + d));
+                    }
+                    out.push(format!("expire {}", ts - 1)); // the clock behind the timestamp
+                }
+            }
+        }
+        for interval_ms in [100i64, 250, 1000] {
+            for samp_ms in [-1i64, 100, 250, 1000] {
+                let (iu, su) = (interval_ms * 1000, samp_ms * 1000);
+                out.push(format!("reset 30000 {} {}", interval_ms, samp_ms));
+                let mut c = 0i64;
+                for d in [iu - 1, 1, 1, iu - 1, iu, iu + 1, -1, iu - 1, 1, -iu, iu, 0, 3 * iu] {
+                    c += d;
+                    out.push(format!("cycle {}", c));
+                }
+                out.push(format!("reset 30000 {} {}", interval_ms, samp_ms));
+                if su > 0 {
+                    let mut c = 0i64;
+                    for d in [su - 1, 1, 1, su - 1, su, su + 1, -1, su - 1, 1, -su, su, 0, 3 * su] {
+                        c += d;
+                        out.push(format!("itick {} {}", c, b(d % 2 == 0)));
+                    }
+                } else {
+                    for (k, c) in [0i64, -5, 7, 7, -1_000_000].iter().enumerate() {
+                        out.push(format!("itick {} {}", c, b(k % 2 == 0)));
+                    }
+                }
+            }
+        }
+        // (2) random part
         for _ in 0..n {
             let timeout: i64 = *rng.pick(&[30_000i64, 30_000, 5_000, 100, 1]);
             let interval_ms: i64 = *rng.pick(&[100i64, 250, 1000]);
@@ -36,7 +79,8 @@ impl Prop for C26 {
                 let step = match rng.weighted(&[10, 3, 1, 2]) {
                     0 => {
                         let r = rng.range(0, 3 * iu);
-                        *rng.pick(&[0, 1, 999, 1000, iu - 1, iu, iu + 1, 2 * iu, r])
+                        let su = if samp_ms > 0 { samp_ms * 1000 } else { iu };
+                        *rng.pick(&[0, 1, 999, 1000, iu - 1, iu, iu + 1, 2 * iu, r, su - 1, su, su + 1])
                     }
                     1 => -*rng.pick(&[1, 1000, iu, 60_000_000, 86_400_000_000i64]),
                     2 => 86_400_000_000,
